@@ -1,6 +1,7 @@
 """c15 — argument evaluation order: PrologueModel theorems, static comparison of every
 generated prologue with the model, evaluation logs of generated programs, probe F9."""
 import gen_common
+import par_common
 import probes
 
 DEP_FILES = ["PrologueModel.v", "PrologueProofs.v"]
@@ -10,6 +11,7 @@ PID = "C15"
 def run(chk):
     chk.recheck_proofs()
     gen_common.apply(chk, PID)
+    par_common.apply(chk, PID)
     verdict, detail = probes.run_probe("F9")
     chk.count(1, key=("probe", "F9"))
     chk.cov["correspondence"]["probe_F9_err_capture"] = verdict
